@@ -1789,6 +1789,19 @@ func oracleCla(in, outp string) {
 					if rule != nil && claim(l) == nil {
 						clause = "distribute-membership"
 					}
+					// a unix-domain-socket endpoint missing or wrongly there: its own class
+					inA, inB := map[string]int{}, map[string]int{}
+					for _, t := range a {
+						inA[t]++
+					}
+					for _, t := range b {
+						inB[t]++
+					}
+					for _, t := range append(append([]string{}, a...), b...) {
+						if strings.HasPrefix(t, "pipe:") && inA[t] != inB[t] {
+							clause = "socket-endpoint-served"
+						}
+					}
 					fail(clause, fmt.Sprintf("%s %s locality %q: want %v got %v", f[1], q.cluster(), l, a, b))
 				}
 			}
